@@ -140,7 +140,7 @@ class C06(Check):
             for b in BMOLS:
                 for aname, n, edges, acyc in a_molecules(False)[3::3]:
                     yield dict(unit, aname=aname, n=n, edges=edges, acyc=acyc, b=b, start='A', types=None,
-                               restr='r00', ign=True, sf=2)
+                               restr='r00', ign=True, sf=10)
 
     # ------------------------------------------------------------------
     def build_pair(self, case, seed):
@@ -357,6 +357,15 @@ class C06(Check):
             # counterexample is repeated several times because its failure is a coin toss by nature)
             if not cut and (R.traces % 5 == 0 or 'choices' in case):
                 for _ in range(8 if 'choices' in case else 1):
+                    # an UNRELATED alignment (other molecules' roles, a partial restraint list) runs in between: the
+                    # outcome is a function of the inputs and the random stream, not of what the process did before
+                    try:
+                        other = Alignment(end_in, start_in)
+                        with patched(Alignment, 'STEPS_FACTOR', 1), quiet_stdout(), \
+                                owned_random(McScript(Ctx([]), 3, [], accept_menu=1)):
+                            other.align_molecules([(len(end_in) - 1, 0)], None, False)
+                    except (Horizon, Exception):
+                        pass
                     ctx2 = Ctx(list(ctx.trace))
                     ali2 = one(ctx2)[0]
                     R.add('replayed_twice', 1)
@@ -370,6 +379,19 @@ class C06(Check):
             # supplementary: the real generator, same seed twice -> bit-identical
             for rs in range(8):
                 o1 = one(None, rng_seed=rs)
+                # an unrelated alignment (roles swapped, another restraint) runs between the two identical ones
+                try:
+                    other = Alignment(end_in, start_in)
+                    np.random.seed(1000 + rs)
+                    with patched(Alignment, 'STEPS_FACTOR', 1), quiet_stdout():
+                        # it restrains every atom but the first of the molecule that is mobile in the runs compared
+                        if len(start_in) < len(end_in):
+                            pairs = [(len(end_in) - 1, j) for j in range(1, len(start_in))]
+                        else:
+                            pairs = [(i, len(start_in) - 1) for i in range(1, len(end_in))]
+                        other.align_molecules(pairs, None, False)
+                except Exception:
+                    pass
                 o2 = one(None, rng_seed=rs)
                 desc = dict(case, rng_seed=rs)
                 R.case(desc, nontrivial=True, cls='seeds', outcome='seeded')
